@@ -227,7 +227,9 @@ func reuseCase(t reflect.Type, a, b reuseItem) (fails []reuseFailure, ok bool) {
 	if err := decodeInto(b.b, recv.Interface()); err != nil {
 		return []reuseFailure{{"second-decode-rejected", fmt.Sprintf("a fresh receiver accepts B, the reused one returns %v", err)}}, true
 	}
-	bad := func(kind, format string, x ...any) { fails = append(fails, reuseFailure{kind, fmt.Sprintf(format, x...)}) }
+	bad := func(kind, format string, x ...any) {
+		fails = append(fails, reuseFailure{kind, fmt.Sprintf(format, x...)})
+	}
 	var p any
 	p = safe(func() {
 		// (i) everything kept from A
